@@ -112,8 +112,9 @@ def gen_program(rng, req):
                 data_len = 0
             off = rng.choice([0, 0, 0, min(data_len, 3), data_len // 2])
             spec["file"] = {"kind": kind, "offset": off}
-            if spec["cl"] == "cut":
+            if spec["cl"] == "cut" and kind != "real":
                 spec["cl"] = rng.choice([None, "exact"])
+            # (a Content-Length shorter than what is left of a real file: the range-style response - the body ends at the length)
     spec["chunks"] = [c.hex() for c in chunks]
     total = sum(len(c) for c in chunks)
     if spec.get("cl") == "cut":
@@ -201,7 +202,14 @@ def judge(case, out, router):
     failed_silently = None
     for i, app in enumerate(router.apps):
         if app.calls and app.rec.get("failed_at") and i == len(resps) and i < router.n:
-            failed_silently = i
+            if progs[i].get("fail_exc") in ("oserror", "filenotfound", "permission", "timeout"):
+                failed_silently = i
+            elif not app.rec.get("written") and not any(len(c) for c in app.rec.get("produced", [])):
+                # an ordinary exception before any byte of the response went out: the client is owed the server's own 500
+                v.append(("failure-before-send-not-a-clean-500", "app failed at %s with an ordinary exception before any byte: the client "
+                          "got no response at all (%d responses for %d requests, problem=%s)" % (
+                              app.rec.get("failed_at"), len(resps), len(reqs), res.problem)))
+                return v
     if failed_silently is not None and res.problem in (None, "interim-without-final"):
         res.problem = None
         if failed_silently == 0 and not resps:
@@ -413,6 +421,7 @@ def live_shard(sh):
     # class's own sockets (gevent / eventlet monkey-patched), real socket.sendfile / eventlet's patched sendfile
     import base64
     import socket
+    import time
     from vlib import e2_worker as e2
     from vlib import e4_live as e4
     run = Run(PROP, sh.get("tier", "quick"), sh["seed"], "exploration", RULE)
@@ -433,6 +442,27 @@ def live_shard(sh):
                 break
             case = make_case(rng)
             case["kind"] = "live-" + wc
+            late_reader = None
+            if k in (9, 49, 89):
+                # one large chunked response read by a client that starts late, with a small receive buffer
+                r0 = {"version": "1.1", "method": "GET", "conn": ["close"], "expect": False, "body": ""}
+                p0 = {"status": "200 OK", "headers": [], "mode": rng.choice(["gen", "list"]),
+                      "chunks": [{"rep": [80 + j, 262144]} for j in range(rng.choice([6, 12]))], "cl": None, "lazy_start": False, "has_close": False}
+                case["reqs"], case["progs"] = [r0], [p0]
+                late_reader = 1.0
+                run.count("live_large_chunked_to_late_reader")
+            if k in (13, 53, 93):
+                # a range-style file response: Content-Length smaller than what is left of the file, larger than any block size
+                size = rng.choice([220000, 300001])
+                cut_by = rng.choice([120000, 69393, size - 100000])
+                off = rng.choice([0, 0, 70000])
+                r0 = {"version": "1.1", "method": "GET", "conn": None, "expect": False, "body": ""}
+                r1 = {"version": "1.1", "method": "GET", "conn": ["close"], "expect": False, "body": ""}
+                p0 = {"status": "200 OK", "headers": [], "mode": "file", "file": {"kind": "real", "offset": off},
+                      "chunks": [{"rep": [70, size]}], "cl": "cut", "cut_by": max(1, min(cut_by, size - off - 1)), "has_close": False}
+                p1 = {"status": "200 OK", "headers": [], "mode": "list", "chunks": [b"after".hex()], "cl": "exact", "has_close": False}
+                case["reqs"], case["progs"] = [r0, r1], [p0, p1]
+                run.count("live_range_style_file_responses")
             if k in (5, 45, 85, 125):
                 # a response that takes longer than the keep-alive time to produce, with a pipelined request behind it
                 r0 = {"version": "1.1", "method": "GET", "conn": None, "expect": False, "body": ""}
@@ -456,9 +486,17 @@ def live_shard(sh):
                 script += head + b"\r\nX-Prog: " + prog + b"\r\n" + rest
             out = {"handler_exc": None, "hung": False, "received": b"", "eof": False}
             try:
-                s = e4.connect(srv.addr, 5)
+                if late_reader:
+                    s = socket.socket(socket.AF_INET, socket.SOCK_STREAM)
+                    s.setsockopt(socket.SOL_SOCKET, socket.SO_RCVBUF, 4096)
+                    s.settimeout(5)
+                    s.connect(srv.addr)
+                else:
+                    s = e4.connect(srv.addr, 5)
                 s.sendall(script)
                 s.shutdown(socket.SHUT_WR)
+                if late_reader:
+                    time.sleep(late_reader)
                 s.settimeout(8)
                 buf = b""
                 while True:
@@ -543,7 +581,8 @@ def main(tier, seed):
     shards = [{"n": 1500 if q else 20000, "sub": s, "seed": seed, "tier": tier} for s in range(32 if q else 64)]
     shards += [{"kind": "live", "class": c, "n": 250 if q else 2000, "seed": seed, "tier": tier}
                for c in ("sync", "gthread", "gevent", "eventlet")]
-    run.require("live_connections", "live_class/sync", "live_class/gthread", "live_class/gevent", "live_class/eventlet", "live_slow_responses")
+    run.require("live_connections", "live_class/sync", "live_class/gthread", "live_class/gevent", "live_class/eventlet", "live_slow_responses", "live_large_chunked_to_late_reader",
+                "live_range_style_file_responses")
     run.assumptions = [
         "client = AF_UNIX socketpair end driven by the harness: sends all pipelined requests, half-closes, reads to EOF",
         "well-behaved applications only: no body for HEAD/204/304, no under-production against a declared length, str status 'NNN reason'",
